@@ -5,6 +5,7 @@ import (
 	"encoding/binary"
 	"encoding/json"
 	"fmt"
+	"sync"
 	"time"
 
 	"github.com/foxboron/go-uefi/efi/signature"
@@ -22,6 +23,9 @@ type vgCfg struct {
 	// Clients > 1: the operations are issued by that many goroutines under the
 	// seeded scheduler; the signer and the filesystem are the yield points.
 	Clients int `json:"clients,omitempty"`
+	// Free: the clients are not serialised at all: they run as the Go runtime lets them (race-detector build). The
+	// updates they produce are judged afterwards like any other.
+	Free bool `json:"free,omitempty"`
 }
 
 // vgOp produces one signed update. Several updates of one run stay alive until
@@ -37,18 +41,25 @@ type vgOp struct {
 	// Reuse: once the update has been produced the caller changes the object it passed as payload (it prepares
 	// the next update in the same value). The update already handed out is a value of its own.
 	Reuse bool `json:"caller_reuses_payload,omitempty"`
+	// SignerFails: the signing device refuses this request (the call is expected to report it; what is judged are the
+	// updates produced before and after).
+	SignerFails bool `json:"signer_fails,omitempty"`
 }
 
-type varsignEngine struct{ tz bool }
+type varsignEngine struct{ tz, race bool }
 
 func init() {
 	register(&varsignEngine{})
 	register(&varsignEngine{tz: true})
+	register(&varsignEngine{race: true})
 }
 
 func (e *varsignEngine) Name() string {
 	if e.tz {
 		return "varsign_tz"
+	}
+	if e.race {
+		return "varsign_race"
 	}
 	return "varsign"
 }
@@ -61,6 +72,9 @@ func (e *varsignEngine) Plan(seed uint64, tier string) int {
 	}
 	if e.tz {
 		n /= 8
+	}
+	if e.race {
+		n /= 12
 	}
 	return n
 }
@@ -196,8 +210,15 @@ func (e *varsignEngine) Gen(seed uint64, tier string, run int) *Trace {
 		n = r.Range(2, 4)
 	}
 	mode := r.Intn(8)
+	if e.race {
+		mode = 0
+		c.Free = true
+	}
 	if mode == 0 {
 		c.Clients = r.Range(2, 3)
+		if e.race {
+			c.Clients = Pick(r, []int{2, 3, 4, 8})
+		}
 		n = r.Range(c.Clients, c.Clients+2)
 	}
 	var ops []vgOp
@@ -212,10 +233,17 @@ func (e *varsignEngine) Gen(seed uint64, tier string, run int) *Trace {
 		if c.Clients > 1 {
 			op.C = i % c.Clients
 		}
+		if n > 1 && i < n-1 && r.Chance(1, 6) {
+			op.SignerFails = true
+		}
+		if e.race && r.Chance(1, 2) {
+			// large payloads: the passes over the payload (marshalling, hashing) are long enough to overlap
+			op.Val = ValSpec{Kind: "raw", N: Pick(r, []int{1 << 14, 1 << 16, 1 << 17, 1 << 19}), Tag: r.Intn(1 << 16)}
+		}
 		ops = append(ops, op)
 	}
 	// a signer certificate with a short validity: put the clock close to (but inside) an edge of its window
-	if k := ops[0].Key; k >= 19 && k < poolAll && r.Chance(2, 3) {
+	if k := ops[0].Key; (k == 19 || k == 20) && r.Chance(2, 3) {
 		cert := Pool()[k].Cert
 		d := time.Duration(Pick(r, []int{1, 59, 600, 1799, 1800, 3599, 3600, 2*3600 + 1, 5*3600 + 1800, 9 * 3600, 12 * 3600, 14*3600 - 1, r.Intn(14 * 3600)})) * time.Second
 		edge := cert.NotBefore.Add(d)
@@ -228,7 +256,7 @@ func (e *varsignEngine) Gen(seed uint64, tier string, run int) *Trace {
 		}
 	}
 	var sw []Switch
-	if c.Clients > 1 {
+	if c.Clients > 1 && !c.Free {
 		gap := Pick(r, []int{1, 1, 2})
 		for y := r.Intn(gap + 1); y < 12*n; y += 1 + r.Intn(2*gap) {
 			sw = append(sw, Switch{Yield: y, Next: r.Intn(c.Clients)})
@@ -282,12 +310,47 @@ func (e *varsignEngine) Exec(tr *Trace, x *X) {
 				return
 			}
 			x.Sim(now.Unix())
-			m, b := vgExec(c, op, i, plane, x)
+			p := vgProduce(op, plane)
+			m, b := vgJudge(c, op, i, p, x)
 			if b != nil {
 				live = append(live, alive{i, op, m, b, op.Op})
 			}
 		}
-		if c.Clients > 1 {
+		switch {
+		case c.Clients > 1 && c.Free:
+			// free-running callers: produce concurrently (nothing of the harness is shared), judge afterwards
+			prods := make([]*vgProduct, len(ops))
+			var wg sync.WaitGroup
+			start := make(chan struct{})
+			for cl := 0; cl < c.Clients; cl++ {
+				cl := cl
+				wg.Add(1)
+				go func() {
+					defer wg.Done()
+					<-start
+					for i, op := range ops {
+						if op.C%c.Clients != cl {
+							continue
+						}
+						op.Advance, op.DelayMs = 0, 0
+						prods[i] = vgProduce(op, NewPlane(nil))
+					}
+				}()
+			}
+			close(start)
+			wg.Wait()
+			x.Probe("free_running_signers")
+			for i, op := range ops {
+				if x.Failed() || prods[i] == nil {
+					continue
+				}
+				x.Sim(prods[i].at.Unix())
+				m, b := vgJudge(c, op, i, prods[i], x)
+				if b != nil {
+					live = append(live, alive{i, op, m, b, op.Op})
+				}
+			}
+		case c.Clients > 1:
 			sched := NewSched(x, c.Clients, sw)
 			plane.yield = sched.Yield
 			bodies := make([]func(), c.Clients)
@@ -310,7 +373,7 @@ func (e *varsignEngine) Exec(tr *Trace, x *X) {
 			if len(sched.Switches) > 0 {
 				x.Probe("interleaved_signers")
 			}
-		} else {
+		default:
 			for i, op := range ops {
 				if x.Failed() {
 					return
@@ -340,17 +403,85 @@ func (e *varsignEngine) Exec(tr *Trace, x *X) {
 	}
 }
 
-// vgExec produces one update and judges it. It returns the Marshallable (when
-// the API hands one out) and the bytes.
-func vgExec(c vgCfg, op vgOp, i int, plane *Plane, x *X) (interface{ Bytes() []byte }, []byte) {
+// vgProduct is what one call of the library left behind; it is judged by vgJudge. Producing touches nothing of the
+// harness that another caller could touch at the same time.
+type vgProduct struct {
+	payload     []byte
+	out         []byte
+	keep        interface{ Bytes() []byte }
+	err         error
+	pv          any
+	marshalDiff string
+	at, end     time.Time
+	zname       string
+	zoff        int
+	reused      bool
+}
+
+func vgProduce(op vgOp, plane *Plane) *vgProduct {
+	p := &vgProduct{}
 	v := op.Var.Var()
-	payload := op.Val.Bytes()
+	p.payload = op.Val.Bytes()
+	payload := p.payload
+	pk := Pool()[op.Key%poolAll]
+	signer := &SimSigner{inner: pk.Key, p: plane, Delay: time.Duration(op.DelayMs) * time.Millisecond, FailNext: op.SignerFails}
+	p.at = time.Now().UTC()
+	p.zname, p.zoff = time.Now().Zone()
+	func() {
+		defer func() { p.pv = recover() }()
+		switch op.Op {
+		case "SignEFIVariable":
+			mine := &mutVal{b: append([]byte(nil), payload...)}
+			_, mm, e2 := signature.SignEFIVariable(v, mine, signer, pk.Cert)
+			p.err = e2
+			if mm != nil && e2 == nil && op.Reuse {
+				// the caller goes on working with its own object: the next update is prepared in it
+				for k := range mine.b {
+					mine.b[k] ^= 0x5a
+				}
+				mine.b = append(mine.b, "next entry"...)
+				p.reused = true
+			}
+			if mm != nil && e2 == nil {
+				p.keep = mm
+				p.out = mm.Bytes()
+				// the update is a value: encoding it (both ways the interface offers) does not use it up
+				var mb bytes.Buffer
+				mm.Marshal(&mb)
+				if !bytes.Equal(mb.Bytes(), p.out) {
+					p.marshalDiff = fmt.Sprintf("Marshal() wrote %s, Bytes() returned %s", shortHex(mb.Bytes()), shortHex(p.out))
+				} else if again := mm.Bytes(); !bytes.Equal(again, p.out) {
+					p.marshalDiff = fmt.Sprintf("Bytes() after a Marshal() returned %s, before it %s", shortHex(again), shortHex(p.out))
+				}
+			}
+		case "WriteSignedUpdate":
+			sfs := NewSimFs(afero.NewMemMapFs(), plane, nil)
+			wr := fswrapper.NewMemoryWrapper()
+			wr.SetFS(sfs)
+			api := efivarfs.Open(&efivarfs.EFIFS{FSWrapper: wr})
+			p.err = api.WriteSignedUpdate(v, rawVal(payload), signer, pk.Cert)
+			for _, ev := range sfs.Events {
+				if ev.Call == cWrite && len(ev.Buf) >= 4 {
+					p.out = ev.Buf[4:]
+				}
+			}
+		default:
+			harnessf("varsign: unknown api %q", op.Op)
+		}
+	}()
+	p.end = time.Now().UTC()
+	return p
+}
+
+// vgJudge judges one produced update. It returns the Marshallable (when the API hands one out) and the bytes.
+func vgJudge(c vgCfg, op vgOp, i int, p *vgProduct, x *X) (interface{ Bytes() []byte }, []byte) {
+	v := op.Var.Var()
+	payload := p.payload
 	pk := Pool()[op.Key%poolAll]
 	kind := op.Op
-	signer := &SimSigner{inner: pk.Key, p: plane, Delay: time.Duration(op.DelayMs) * time.Millisecond}
-	at := time.Now().UTC()
-	zname, zoff := time.Now().Zone()
-	x.Logf("op %d zone=%q (process sees %s%+d) instant=%s var=%s payload=%s key=k%d api=%s", i, c.Zone, zname, zoff, at.Format(time.RFC3339), op.Var.String(), shortHex(payload), op.Key, op.Op)
+	at, end, zname, zoff := p.at, p.end, p.zname, p.zoff
+	out, keep, err, pv, marshalDiff := p.out, p.keep, p.err, p.pv, p.marshalDiff
+	x.Logf("op %d zone=%q (process sees %s%+d) instant=%s var=%s payload=%s key=k%d api=%s signer_fails=%v", i, c.Zone, zname, zoff, at.Format(time.RFC3339), op.Var.String(), shortHex(payload), op.Key, op.Op, op.SignerFails)
 	if zoff != 0 {
 		x.Probe("non_utc_zone")
 	}
@@ -363,59 +494,21 @@ func vgExec(c vgCfg, op vgOp, i int, plane *Plane, x *X) (interface{ Bytes() []b
 	if string(pk.Cert.RawIssuer) != string(pk.Cert.RawSubject) {
 		x.Probe("ca_issued_signer")
 	}
-	var out []byte
-	var keep interface{ Bytes() []byte }
-	var err error
-	var pv any
-	var marshalDiff string
-	func() {
-		defer func() { pv = recover() }()
-		switch op.Op {
-		case "SignEFIVariable":
-			mine := &mutVal{b: append([]byte(nil), payload...)}
-			_, mm, e2 := signature.SignEFIVariable(v, mine, signer, pk.Cert)
-			err = e2
-			if mm != nil && op.Reuse {
-				// the caller goes on working with its own object: the next update is prepared in it
-				for k := range mine.b {
-					mine.b[k] ^= 0x5a
-				}
-				mine.b = append(mine.b, "next entry"...)
-				x.Probe("caller_reuses_payload_object")
-			}
-			if mm != nil {
-				keep = mm
-				out = mm.Bytes()
-				// the update is a value: encoding it (both ways the interface offers) does not use it up
-				var mb bytes.Buffer
-				mm.Marshal(&mb)
-				if !bytes.Equal(mb.Bytes(), out) {
-					marshalDiff = fmt.Sprintf("Marshal() wrote %s, Bytes() returned %s", shortHex(mb.Bytes()), shortHex(out))
-				} else if again := mm.Bytes(); !bytes.Equal(again, out) {
-					marshalDiff = fmt.Sprintf("Bytes() after a Marshal() returned %s, before it %s", shortHex(again), shortHex(out))
-				}
-			}
-		case "WriteSignedUpdate":
-			sfs := NewSimFs(afero.NewMemMapFs(), plane, nil)
-			wr := fswrapper.NewMemoryWrapper()
-			wr.SetFS(sfs)
-			api := efivarfs.Open(&efivarfs.EFIFS{FSWrapper: wr})
-			err = api.WriteSignedUpdate(v, rawVal(payload), signer, pk.Cert)
-			for _, ev := range sfs.Events {
-				if ev.Call == cWrite && len(ev.Buf) >= 4 {
-					out = ev.Buf[4:]
-				}
-			}
-		default:
-			harnessf("varsign: unknown api %q", op.Op)
-		}
-	}()
+	if p.reused {
+		x.Probe("caller_reuses_payload_object")
+	}
 	fail := func(oracle, format string, a ...any) { x.Fail(oracle, i, kind, format, a...) }
 	if pv != nil {
 		if he, ok := pv.(*HarnessError); ok {
 			panic(he)
 		}
 		fail("varsign.no_panic", "panicked: %v", pv)
+		return nil, nil
+	}
+	if op.SignerFails {
+		// what a failing signer has to lead to is another property's business; this run goes on with the next request
+		x.Logf("op %d: the signing device refused; the call returned err=%v", i, err)
+		x.Probe("signer_refused_then_next_request")
 		return nil, nil
 	}
 	if err != nil {
@@ -435,7 +528,6 @@ func vgExec(c vgCfg, op vgOp, i int, plane *Plane, x *X) (interface{ Bytes() []b
 		return nil, nil
 	}
 	// --- 16-byte EFI_TIME: the simulated clock during the call, in UTC ---
-	end := time.Now().UTC()
 	if end.Sub(at) >= time.Second {
 		x.Probe("clock_ticked_during_signing")
 	}
